@@ -223,27 +223,39 @@ func vh_C05_bmc_advance() {
 	vcover("end")
 }
 
-// C05.L5 (BMC): gap ack blocks are sound and complete w.r.t. the model after 2..3 pushes
-// and an optional pop.
+// C05.L5 (BMC): gap ack blocks are sound and complete w.r.t. the model. The scan loop
+// chains trailing-zero computations on shifted bitmap words, which no available solver
+// refutes in reasonable time when the bit positions are symbolic (20-60 s per query
+// measured). The bound therefore fixes the *bit* positions and keeps the *word* positions
+// symbolic: cum = 64*k + r with k a symbolic 26-bit value (every ring rotation, every
+// distance to the 2^32 wrap) and r in {0, 1, 62, 63}; 2 (3 thorough) accepted pushes at
+// offsets from a set that covers word boundaries and the window edge; optional pop.
 func vh_C05_bmc_gaps() {
-	// the cumulative TSN ranges over 4 bases (just below the 2^32 wrap, just below
-	// 2^31, zero, mid-range) x 256 offsets: every bit alignment and both wraps
-	bases := []uint32{0xffffff00, 0x7fffff00, 0, 0x12345600}
-	cum := bases[vPick(len(bases))] + uint32(nondetU8())
-	q, m := vRPQStartAt([]uint32{64}, cum)
-	// Bound: one held TSN (quick) / two (thorough). Deeper shapes make the chained
-	// trailing-zero computations of the scan loop too hard for the solvers available
-	// (20-60 s per infeasible-branch refutation, measured) and are outside the claim.
-	np := 1
+	rs := []uint32{0, 62, 63}
+	offs := []uint32{1, 2, 3, 64, 65, 66, 129, 192}
+	np := 2
 	if vtier() > 0 {
-		np = 2
+		rs = []uint32{0, 1, 62, 63}
+		offs = []uint32{1, 2, 3, 63, 64, 65, 66, 127, 128, 129, 191, 192}
+		np = 3
 	}
+	r := rs[vPick(len(rs))]
+	cum := nondetU32()&^63 | r
+	q, m := vRPQStartAt([]uint32{192}, cum)
+	last := -1
 	for i := 0; i < np; i++ {
-		vRPQPushAccepted(q, m, "gaps")
+		k := last + 1 + vPick(len(offs)-last-1-(np-1-i)) // strictly increasing choice of offsets
+		last = k
+		t := m.cum + offs[k]
+		vassert(q.push(t), "in-window new TSN is accepted (gaps)")
+		m.push(t)
+	}
+	if nondetBool() {
+		vassert(q.pop(false) == m.pop(false), "pop result equals model (gaps)")
 	}
 	blocks := q.getGapAckBlocks()
 	vassert(len(blocks) <= np, "no more gap blocks than held TSNs")
-	p := nondetU32()
+	p := m.cum + uint32(nondetU8()) // probe anywhere in (cum, cum+255]
 	off := p - m.cum
 	inBlock := false
 	prevEnd := uint16(0)
@@ -253,13 +265,11 @@ func vh_C05_bmc_gaps() {
 			vassert(b.start > prevEnd+1, "gap blocks ascending, disjoint and not adjacent")
 		}
 		prevEnd = b.end
-		if off >= uint32(b.start) && off <= uint32(b.end) && off <= m.maxOff {
+		if off >= uint32(b.start) && off <= uint32(b.end) {
 			inBlock = true
 		}
 	}
-	if m.maxOff < 65536 {
-		vassert(inBlock == m.has(p), "probe TSN is inside a gap block iff it was accepted and not yet cumulatively acked")
-	}
+	vassert(inBlock == m.has(p), "probe TSN is inside a gap block iff it was accepted and not yet cumulatively acked")
 	vobserve("nblocks", uint64(len(blocks)))
 	vcover("end")
 }
